@@ -323,7 +323,7 @@ class C01(MotionMonitor):
                (2, "region-additions", mk(addregion=True, arcs=True, at=True)),
                (2, "everything", mk(rel=True, inch=True, arcs=True, at=True, addregion=True, g28mid=True, retmove=True,
                                     spell=True, g92e_retracted=True)),
-               (1.5, "exact-border", {}), (0.6, "arcs-under-g91", mk(rel=True, arcs=True, arcs_rel=True))]
+               (1.5, "exact-border", {}), (1.5, "arcs-under-g91", mk(rel=True, arcs=True, arcs_rel=True))]
 
     def oracle(self, tr, stats, case):
         return oracle_c01(tr, stats)
@@ -331,8 +331,8 @@ class C01(MotionMonitor):
     def thresholds(self, tier):
         return {"episodes_opened": 50, "c01_moves_judged": 200, "c01_steps_in_episode": 100}
 
-    def witnesses(self):
-        return [("K3", K3_WITNESS_C01)]
+    def regressions(self):
+        return [("arc-under-g91", K3_WITNESS_C01)]
 
 
 class C03(MotionMonitor):
@@ -345,7 +345,7 @@ class C03(MotionMonitor):
                (3, "rel-inch-switching", mk(rel=True, inch=True, arcs=True, spell=True)),
                (1, "firmware", mk(fw=True, rel=True)), (1, "g28-mid", mk(g28mid=True, rel=True, inch=True)),
                (0.5, "g92xyz-outside-episodes", mk(g92xyz=True, rel=True, g28mid=True, boost=0.1)),
-               (0.5, "arcs-under-g91", mk(rel=True, arcs=True, arcs_rel=True))]
+               (1.5, "arcs-under-g91", mk(rel=True, arcs=True, arcs_rel=True))]
 
     def oracle(self, tr, stats, case):
         return oracle_c03(tr, stats)
@@ -365,7 +365,10 @@ class C03(MotionMonitor):
         return {"c03_closing_steps": 50, "c03_outside_moves": 500, "c03_resync_travels": 50}
 
     def witnesses(self):
-        return [("K2", K2_WITNESS), ("K3", K3_WITNESS_C03)]
+        return [("K2", K2_WITNESS)]
+
+    def regressions(self):
+        return [("arc-under-g91", K3_WITNESS_C03)]
 
 
 class ExtrusionMonitor(MotionMonitor):
@@ -452,7 +455,7 @@ class C14(MotionMonitor):
     assumptions = C01.assumptions
     classes = [(3, "default-table", mk(at=True, rel=True, arcs=True)), (2, "inch", mk(at=True, inch=True, rel=True)),
                (2, "firmware", mk(at=True, fw=True)), (1, "addregion", mk(at=True, addregion=True)),
-               (0.5, "arcs-under-g91", mk(at=True, rel=True, arcs=True, arcs_rel=True))]
+               (1.5, "arcs-under-g91", mk(at=True, rel=True, arcs=True, arcs_rel=True))]
 
     def gen_case(self, rnd, tier, k):
         name, feats = self.pick_class(rnd)
